@@ -26,6 +26,11 @@ def lock_attr(cx, tm):
                     for t in n.targets:
                         if isinstance(t, ast.Attribute) and U(t.value) == 'self' and isinstance(n.value, ast.Call) and U(n.value.func) in LOCK_CTORS:
                             sites.append((t.attr, fn, n))
+                        elif isinstance(t, (ast.Tuple, ast.List)) and isinstance(n.value, (ast.Tuple, ast.List)) and len(t.elts) == len(n.value.elts):
+                            # self.a, self._lock = x, RLock()
+                            for a_, b_ in zip(t.elts, n.value.elts):
+                                if isinstance(a_, ast.Attribute) and U(a_.value) == 'self' and isinstance(b_, ast.Call) and U(b_.func) in LOCK_CTORS:
+                                    sites.append((a_.attr, fn, n))
     return sites
 
 
